@@ -64,11 +64,11 @@ pub fn emit(e: &mut Emitter, seed: u64, thorough: bool) {
         for routed in [30usize, 40, 65] {
             let mut config = CircuitConfig::standard_recursion_config();
             config.num_routed_wires = routed;
-            let nbits = *r.pick(&[45usize, 63, routed - 1, routed]);
-            let exp = ((1u64 << (nbits - 1)) | (r.next() >> (65 - nbits))) & (u64::MAX >> 1);
-            let prog = Prog { ops: vec![Op::Input(exp), Op::ExpConstBase(r.below(P), 0, nbits), Op::Public(1)], tables: vec![], skip_connect: false };
+            let nbits = *r.pick(&[45usize, 63, (routed - 1).min(63), routed.min(63)]);
+            let exp = (1u64 << (nbits - 1)) | (r.next() >> (65 - nbits));
+            let prog = Prog { ops: vec![Op::Input(exp), Op::Input(r.below(P)), Op::ExpConstBase(r.below(P), 0, nbits), Op::ExpBits(1, 0, nbits), Op::ExpU64(1, exp | 1), Op::Public(2), Op::Public(3), Op::Public(4)], tables: vec![], skip_connect: false };
             let (_, expected) = prog.eval();
-            let what = format!("exp_from_bits_const_base with {nbits} exponent bits, {routed} routed wires");
+            let what = format!("exp_from_bits_const_base / exp / exp_u64 with {nbits} exponent bits, {routed} routed wires");
             e.stage(&format!("impl: building+proving {what}"));
             match std::panic::catch_unwind(std::panic::AssertUnwindSafe(|| { let (d, pw) = prog.build(config.clone()); let p = d.prove(pw)?; d.verify(p.clone())?; anyhow::Ok(p) })) {
                 Ok(Ok(p)) => if p.public_inputs != expected { e.oracle_failures.push(format!("public inputs differ from direct evaluation (the circuit computes the wrong power); {what}")); },
